@@ -65,6 +65,11 @@ def _work(chunk):
             top, line = export.export(scfg)
             lines.append(f"H {top} {line}")
             meta.append(None)
+            # Scfg.C16.iterAll_nodup_of_uniqueB: a hierarchy passing the computable test `uniqueB` is
+            # enumerated without duplicates at every depth — counted, never judged (the real
+            # enumeration's duplicate-freedom is judged by iterSpecOK below)
+            lines.append("SPEC uniq")
+            meta.append((succ, stage, top, "uniq", "", "uniq"))
             # views created before this stage's edit keep working on the edited graph: a view
             # object that answers from state captured earlier would enumerate the old graph
             if held is None:
@@ -138,6 +143,10 @@ def _work(chunk):
         if m is None:
             continue
         succ, stage, cont, kind, real, what = m
+        if what == "uniq":
+            stats["hierarchies"] += 1
+            stats["hierarchies_passing_uniqueB"] += (r == "1")
+            continue
         if what == "model":
             stats[kind] += 1
             rm = r.split("@")[0] if r.startswith("abort") else r
@@ -197,12 +206,14 @@ def run(ctx):
                                            "input_succ": [list(s) for s in m[0]], "stage": m[1], "container": m[2], "iterator": m[3],
                                            "impl": m[4], "model": m[5], "mismatches": len(mism)})
         broken.append({"signature": {"kind": "correspondence"}, "replay": path, "nfi": True, "what": "iterator model mismatch"})
+    uniq = {k: stats.pop(k, 0) for k in ("hierarchies", "hierarchies_passing_uniqueB")}
     n = sum(stats.values())
     cov = {"evaluations": n, "distinct_nontrivial": len(inputs),
            "rule": "closed CFGs as for C01 (≤16 nodes in the quick tier) plus dense graphs whose blocks have up to four jump targets; before and after every stage, every (sub)graph at every depth: "
                    "list(scfg) and list(scfg.concealed_region_view) vs. the Lean model (exact order) and the Lean specification",
            "samples": [{"input_succ": [list(s) for s in inputs[len(inputs) // 2][1]]}],
-           "graphs": len(inputs), "iterations_checked": dict(stats), "model_mismatches": len(mism), "spec_failures": len(fails),
+           "graphs": len(inputs), "iterations_checked": dict(stats),
+           "nodup_by_theorem": {**uniq, "theorem": "Scfg.C16.iterAll_nodup_of_uniqueB (hierarchies passing the computable test uniqueB are enumerated duplicate-free at every depth; hierarchies not passing it are judged by iterSpecOK only)"}, "model_mismatches": len(mism), "spec_failures": len(fails),
            "traces_validated_against_impl": n - len(mism)}
     return {"level": LEVEL, "coverage": cov, "violations": violations, "broken": broken,
             "assumptions": ["model of the iterators corresponds to the code as far as exercised; spec predicates are the meaning of C16"]}
